@@ -39,7 +39,8 @@ func c15PathWeight(g *c15Graph, p []int) float64 {
 	return sum
 }
 
-// VerifC15_BetweennessWeighted: symbolic positive edge weights. Node and edge
+// VerifC15_BetweennessWeighted: symbolic positive edge weights (with wbzero=1
+// non-negative weights without zero-weight cycles on directed graphs). Node and edge
 // betweenness from an all-pairs shortest path result equal the brute-force
 // sums of sigma_st(x)/sigma_st over the enumerated simple paths; which paths
 // are shortest (ties included) is decided by the solver.
@@ -55,10 +56,33 @@ func VerifC15_BetweennessWeighted() {
 		gg = g
 	}
 	n := g.n
+	// wbzero=1: directed graphs get weights >= 0 (zero-weight arcs and
+	// zero-weight shortest paths) under the assumption that every cycle has
+	// positive weight (the random walk of AllShortest.Between over a
+	// zero-weight cycle terminates only with probability 1). An undirected
+	// zero-weight edge is itself a zero-weight cycle, so undirected weights
+	// stay > 0.
+	zero := verifParam("wbzero", 0) == 1 && !undirected
 	for i := 0; i < n; i++ {
 		for j := 0; j < n; j++ {
 			if g.adj[i][j] {
-				verifAssume(g.w[i][j] > 0)
+				if zero {
+					verifAssume(g.w[i][j] >= 0)
+				} else {
+					verifAssume(g.w[i][j] > 0)
+				}
+			}
+		}
+	}
+	if zero {
+		for i := 0; i < n; i++ {
+			for j := 0; j < n; j++ {
+				if i == j || !g.adj[j][i] {
+					continue
+				}
+				for _, p := range c15SimplePaths(g, i, j) {
+					verifAssume(c15PathWeight(g, p)+g.w[j][i] > 0)
+				}
 			}
 		}
 	}
